@@ -320,6 +320,9 @@ class Engine:
         return self.mk_list(st, ek, z3.IntVal(len(items)), self.const_array(ek, items))
 
     def ev_Dict(self, node, st):
+        if not node.keys:
+            from . import models
+            return models.idict_new(self, st)      # {} used as an int -> int table
         d = {}
         for k, v in zip(node.keys, node.values):
             if not (isinstance(k, ast.Constant) and isinstance(k.value, str)):
